@@ -93,6 +93,8 @@ deriving DecidableEq, Repr, Inhabited
 structure GraphS where
   inputs : List VId := []
   nodes : List NId := []
+  /-- the initializer values (`graph.initializers.values()`, in dict order) -/
+  inits : List VId := []
 deriving DecidableEq, Repr, Inhabited
 
 /-- `ModelConfiguration(name, num_devices, device_names)` (frozen) -/
@@ -224,13 +226,26 @@ def shardDev (nd : NodeS) (vs : ValueS) (v : VId) (c : CId) (axis numShards : In
       | none => Dim.unk
     shardCfgs (rankOf vs) v c axis devs ⟨axis, dim, numShards⟩ stage nd.dev
 
-/-- `node.shard(value, configuration=c, axis=, num_shards=, device_indices=, pipeline_stage=)`:
-    everything is computed on a local list; the only assignment is the last statement. -/
-def shard (w : World) (n : NId) (v : VId) (c : CId) (axis numShards : Int) (devs : List Int)
+/-- `node.shard(...)` without the validation of the device indices -/
+def shardCore (w : World) (n : NId) (v : VId) (c : CId) (axis numShards : Int) (devs : List Int)
     (stage : Option Int) : World × Res :=
   match shardDev (w.node n) (w.value v) v c axis numShards devs stage with
   | none => (w, .raised)
   | some d => (w.setNode n { (w.node n) with dev := d }, .ok)
+
+/-- the device-index check of `shard` raises (`for device_index in device_indices: if not
+    0 <= device_index < configuration.num_devices: raise ValueError`) -/
+def DevsBad (w : World) (c : CId) (devs : List Int) : Prop :=
+  ∃ d ∈ devs, ¬ (0 ≤ d ∧ d < (w.cfg c).numDevices)
+
+instance (w : World) (c : CId) (devs : List Int) : Decidable (DevsBad w c devs) := by
+  unfold DevsBad; infer_instance
+
+/-- `node.shard(value, configuration=c, axis=, num_shards=, device_indices=, pipeline_stage=)`:
+    everything is computed on a local list; the only assignment is the last statement. -/
+def shard (w : World) (n : NId) (v : VId) (c : CId) (axis numShards : Int) (devs : List Int)
+    (stage : Option Int) : World × Res :=
+  if DevsBad w c devs then (w, .raised) else shardCore w n v c axis numShards devs stage
 
 /-- `node.sharding_of(value)` -/
 def shardingOf (nd : NodeS) (v : VId) : List Spec :=
@@ -304,9 +319,23 @@ def resizeOutputs (w : World) (n : NId) (k : Nat) : World × Res :=
 
 /-! ### renames, construction, node removal -/
 
-/-- `value.name = s` -/
+/-- `value.name = s` (`_core.py` Value.name setter): nothing when the name is unchanged; an
+    initializer cannot be renamed to an empty name or to the name of another initializer of its
+    graph (checked before anything is written); renaming an initializer re-inserts it at the end of
+    the initializer dict -/
 def rename (w : World) (v : VId) (s : String) : World × Res :=
-  ({ w with values := w.values.set v { (w.value v) with name := s } }, .ok)
+  if (w.value v).name = s then (w, .ok)
+  else if ∃ gs ∈ w.graphs, v ∈ gs.inits ∧ (s = "" ∨ ∃ v' ∈ gs.inits, v' ≠ v ∧ (w.value v').name = s) then
+    (w, .raised)
+  else
+    ({ w with values := w.values.set v { (w.value v) with name := s },
+              graphs := w.graphs.map (fun gs =>
+                if v ∈ gs.inits then { gs with inits := gs.inits.filter (fun x => decide (x ≠ v)) ++ [v] }
+                else gs) }, .ok)
+
+/-- `value.shape = Shape(...)` (shapes are not touched by any annotation code) -/
+def setShape (w : World) (v : VId) (shape : Option (List Dim)) : World × Res :=
+  ({ w with values := w.values.set v { (w.value v) with shape := shape } }, .ok)
 
 /-- a new empty model (`Model(Graph([], [], nodes=[]), ir_version=)`) -/
 def newModel (w : World) (ir : Nat) : World × Res :=
@@ -319,6 +348,15 @@ def newInput (w : World) (g : GId) (name : String) (shape : Option (List Dim)) :
   let v := w.values.length
   let w1 := { w with values := w.values ++ [({ name := name, shape := shape } : ValueS)] }
   (w1.setGraph g { (w.graph g) with inputs := (w.graph g).inputs ++ [v] }, .ok)
+
+/-- `g.register_initializer(Value(name, shape, const_value=tensor))` with a fresh value -/
+def newInit (w : World) (g : GId) (name : String) (shape : Option (List Dim)) : World × Res :=
+  if name = "" then (w, .raised)
+  else if ∃ v ∈ (w.graph g).inits, (w.value v).name = name then (w, .raised)
+  else
+    let v := w.values.length
+    let w1 := { w with values := w.values ++ [({ name := name, shape := shape } : ValueS)] }
+    (w1.setGraph g { (w.graph g) with inits := (w.graph g).inits ++ [v] }, .ok)
 
 /-- `node.attributes.add(AttrGraph(name, Graph([], [], nodes=[])))`: a new empty subgraph of node
     `n`; it becomes a graph of every model that enumerates `n` -/
@@ -420,6 +458,147 @@ def removeCfg (w : World) (m : MId) (r : CfgRef) (cascade : Bool) : World × Res
           else nd) }, .ok)
     else (w1, .ok)
 
+/-! ### re-attaching a node, direct assignment of the annotation tuples -/
+
+/-- a node that belongs to a graph other than `g` (`node.graph is not None and node.graph is not g`) -/
+def InOtherGraph (w : World) (g : GId) (n : NId) : Prop :=
+  ∃ g', g' < w.graphs.length ∧ g' ≠ g ∧ n ∈ (w.graph g').nodes
+
+instance (w : World) (g : GId) (n : NId) : Decidable (InOtherGraph w g n) := by
+  unfold InOtherGraph; infer_instance
+
+/-- `g.append(node)` for an existing node (`_check_node_can_be_added`: a node that belongs to another
+    graph is rejected; a node of `g` itself is moved to the end); a detached node and everything
+    nested under it is enumerated again by the models owning `g` -/
+def attachNode (w : World) (g : GId) (n : NId) : World × Res :=
+  if InOtherGraph w g n then (w, .raised)
+  else if n ∈ (w.graph g).nodes then
+    (w.setGraph g { (w.graph g) with nodes := (w.graph g).nodes.filter (fun k => decide (k ≠ n)) ++ [n] }, .ok)
+  else
+    let sub := subtreeF (w.nodes.length + 1) w n
+    let w1 := w.setGraph g { (w.graph g) with nodes := (w.graph g).nodes ++ [n] }
+    ({ w1 with models := w1.models.map (fun ms =>
+        if g ∈ ms.graphs then
+          { ms with nodes := ms.nodes ++ n :: sub.1, graphs := ms.graphs ++ sub.2 }
+        else ms) }, .ok)
+
+/-- `node.device_configurations = (...)` with records of the shape `shard` produces -/
+def setDev (w : World) (n : NId) (dev : List NodeCfg) : World × Res :=
+  (w.setNode n { (w.node n) with dev := dev }, .ok)
+
+/-- `model.device_configurations = (...)` with existing configuration objects -/
+def setModelCfgs (w : World) (m : MId) (cfgs : List CId) : World × Res :=
+  (w.setModel m { (w.model m) with cfgs := cfgs }, .ok)
+
+/-! ### the operations as Python-ordered micro-steps
+
+Every call that can raise after touching an *existing* object is also written as the sequence of its
+checks (each raising on the condition the Python code tests, evaluated on the current state) and
+writes, in code order; `runMicro` stops at the first failing check and returns the state reached so
+far (no roll-back).  `step` runs these programs; the functions above are their denotations
+(`Lemmas/Device.lean` proves the two agree). -/
+
+inductive Micro where
+  | check (bad : World → Bool)
+  | write (f : World → World)
+
+def runMicro : World → List Micro → World × Res
+  | w, [] => (w, .ok)
+  | w, .check bad :: rest => if bad w then (w, .raised) else runMicro w rest
+  | w, .write f :: rest => runMicro (f w) rest
+
+def Micro.isWrite : Micro → Bool
+  | .write _ => true
+  | .check _ => false
+
+/-- no check comes after a write -/
+def ChecksFirst : List Micro → Prop
+  | [] => True
+  | .check _ :: rest => ChecksFirst rest
+  | .write _ :: rest => ∀ m ∈ rest, m.isWrite = true
+
+/-- the record of `self.device_configurations` the `shard` loop stops at -/
+def firstCfg (dev : List NodeCfg) (c : CId) : Option NodeCfg := dev.find? (fun e => decide (e.cfg = c))
+
+/-- raise point 1 of the `shard` loop: conflicting `pipeline_stage` on the record of `configuration` -/
+def conflictBad (dev : List NodeCfg) (c : CId) (stage : Option Int) : Bool :=
+  match firstCfg dev c with
+  | some e => decide (StageConflict stage e.stage)
+  | none => false
+
+/-- raise point 2 of the `shard` loop: the value is already sharded along the (normalised) axis -/
+def repeatBad (dev : List NodeCfg) (c : CId) (v : VId) (rank : Option Nat) (axis : Int) : Bool :=
+  match firstCfg dev c with
+  | some e =>
+    match e.specs.find? (fun s => decide (s.value = v)) with
+    | some s => decide (∃ d ∈ s.dims, normAxis rank d.axis = normAxis rank axis)
+    | none => false
+  | none => false
+
+/-- `stage is not None and stage < 0` -/
+def stageNeg (stage : Option Int) : Bool :=
+  match stage with
+  | some s => decide (s < 0)
+  | none => false
+
+/-- `Node.shard` (`_core.py`): the validation prefix, then the two raise points inside the loops (both
+    before anything is assigned: the loops work on local lists), then the single assignment -/
+def shardProg (n : NId) (v : VId) (c : CId) (axis numShards : Int) (devs : List Int)
+    (stage : Option Int) : List Micro :=
+  [ .check (fun w => decide (¬ InIO (w.node n) v)),
+    .check (fun _ => decide (numShards < 1)),
+    .check (fun _ => stageNeg stage),
+    .check (fun w => decide (DevsBad w c devs)),
+    .check (fun w => decide (AxisBad (rankOf (w.value v)) axis)),
+    .check (fun w => conflictBad (w.node n).dev c stage),
+    .check (fun w => repeatBad (w.node n).dev c v (rankOf (w.value v)) axis),
+    .write (fun w => match shardDev (w.node n) (w.value v) v c axis numShards devs stage with
+      | some d => w.setNode n { (w.node n) with dev := d }
+      | none => w) ]
+
+def setStageProg (n : NId) (c : CId) (stage : Int) : List Micro :=
+  [ .check (fun _ => decide (stage < 0)),
+    .write (fun w => w.setNode n { (w.node n) with dev := setStageCfgs c stage (w.node n).dev }) ]
+
+def replaceInputProg (n : NId) (i : Int) (val : Option VId) : List Micro :=
+  [ .check (fun w => decide (i < 0 ∨ i ≥ ((w.node n).inputs.length : Int))),
+    .write (fun w => w.setNode n (replaceInputNode (w.node n) i.toNat val)) ]
+
+def resizeOutputsProg (n : NId) (k : Nat) : List Micro :=
+  [ .check (fun w => decide (k < (w.node n).outputs.length ∧ ∃ o ∈ (w.node n).outputs.drop k, HasUses w o)),
+    .write (fun w => (resizeOutputs w n k).1) ]
+
+def removeNodeProg (g : GId) (n : NId) (safe : Bool) : List Micro :=
+  [ .check (fun w => decide (n ∉ (w.graph g).nodes)),
+    .check (fun w => decide (safe = true ∧
+        (∃ o ∈ (w.node n).outputs, ∃ k, k < w.nodes.length ∧ k ≠ n ∧ some o ∈ (w.node k).inputs))),
+    .write (fun w => (removeNode w g n safe).1) ]
+
+def renameProg (v : VId) (s : String) : List Micro :=
+  [ .check (fun w => decide ((w.value v).name ≠ s ∧ ∃ gs ∈ w.graphs, v ∈ gs.inits ∧
+        (s = "" ∨ ∃ v' ∈ gs.inits, v' ≠ v ∧ (w.value v').name = s))),
+    .write (fun w => (rename w v s).1) ]
+
+def newInitProg (g : GId) (name : String) (shape : Option (List Dim)) : List Micro :=
+  [ .check (fun _ => decide (name = "")),
+    .check (fun w => decide (∃ v ∈ (w.graph g).inits, (w.value v).name = name)),
+    .write (fun w => (newInit w g name shape).1) ]
+
+def attachNodeProg (g : GId) (n : NId) : List Micro :=
+  [ .check (fun w => decide (InOtherGraph w g n)),
+    .write (fun w => (attachNode w g n).1) ]
+
+def addCfgProg (m : MId) (name : String) (numDevices : Option Int) (names : List String) : List Micro :=
+  [ .check (fun _ => decide (name = "")),
+    .check (fun w => decide (∃ c ∈ (w.model m).cfgs, (w.cfg c).name = name)),
+    .check (fun _ => decide (numDevices.getD (names.length : Int) < 1)),
+    .check (fun _ => decide (names ≠ [] ∧ (names.length : Int) ≠ numDevices.getD (names.length : Int))),
+    .write (fun w => (addCfg w m name numDevices names).1) ]
+
+def removeCfgProg (m : MId) (r : CfgRef) (cascade : Bool) : List Micro :=
+  [ .check (fun w => (removeTarget w (w.model m) r).isNone),
+    .write (fun w => (removeCfg w m r cascade).1) ]
+
 /-! ### clone -/
 
 abbrev VMap := List (VId × VId)
@@ -502,18 +681,19 @@ def cloneNodes (rec : CSt → GId → Option (CSt × GId)) (src : World) :
     | none => none
     | some (st1, k) => cloneNodes rec src st1 rest (k :: acc)
 
-/-- `Cloner.clone_graph`: inputs, nodes, then the new `Graph` -/
+/-- `Cloner.clone_graph`: inputs, initializers, nodes, then the new `Graph` -/
 def cloneGraphBody (rec : CSt → GId → Option (CSt × GId)) (src : World) (st : CSt) (g : GId) :
     Option (CSt × GId) :=
   let gs := src.graph g
-  let r := gs.inputs.foldl cloneValue (st.w, st.vm)
+  let r := (gs.inputs ++ gs.inits).foldl cloneValue (st.w, st.vm)
   let newIns := gs.inputs.filterMap (vlookup r.2)
+  let newInits := gs.inits.filterMap (vlookup r.2)
   match cloneNodes rec src { st with w := r.1, vm := r.2 } gs.nodes [] with
   | none => none
   | some (st2, ns) =>
     let g' := st2.w.graphs.length
     some ({ st2 with
-            w := { st2.w with graphs := st2.w.graphs ++ [{ inputs := newIns, nodes := ns }] },
+            w := { st2.w with graphs := st2.w.graphs ++ [{ inputs := newIns, nodes := ns, inits := newInits }] },
             newGraphs := st2.newGraphs ++ [g'] }, g')
 
 /-- `clone_graph` with the nesting depth bounded by `fuel` (`none` when exhausted) -/
@@ -601,6 +781,18 @@ def declareInputs (w : World) : World × Scope → List VId → World × Scope
     let w1 := st.1
     declareInputs w ({ w1 with values := w1.values ++ [w.value v] },
       ((w.value v).name, w1.values.length) :: st.2) rest
+
+/-- the initializers of a graph: an initializer named like a graph input *is* that input, any
+    other gets a new value entered into the current scope (`_deserialize_graph`) -/
+def declareInits (w : World) : World × Scope → List VId → World × Scope
+  | st, [] => st
+  | st, v :: rest =>
+    let name := (w.value v).name
+    if name = "" ∨ (slookup st.2 name).isSome then declareInits w st rest
+    else
+      let w1 := st.1
+      declareInits w ({ w1 with values := w1.values ++ [w.value v] },
+        (name, w1.values.length) :: st.2) rest
 
 /-- `_declare_node_outputs` over all nodes of the graph: `none` = "redeclared in the current
     graph scope" (only the current scope is consulted) -/
@@ -740,7 +932,8 @@ def deserGraphBody (rec : DSt → Scope → GId → Option (DSt × GId)) (w : Wo
     (known : List (String × CId)) (st : DSt) (outer : Scope) (g : GId) : Option (DSt × GId) :=
   let gs := w.graph g
   let newIns := List.range' st.w.values.length gs.inputs.length
-  let r0 := declareInputs w (st.w, []) gs.inputs
+  let r0 := declareInits w (declareInputs w (st.w, []) gs.inputs) gs.inits
+  let newInits := gs.inits.filterMap (fun v => slookup r0.2 (w.value v).name)
   match declareOutputs w r0 ((gs.nodes.map (fun n => serOutputs w (w.node n))).flatten) with
   | none => none
   | some r1 =>
@@ -749,7 +942,7 @@ def deserGraphBody (rec : DSt → Scope → GId → Option (DSt × GId)) (w : Wo
     | some (st2, ns) =>
       let g' := st2.w.graphs.length
       some ({ st2 with
-              w := { st2.w with graphs := st2.w.graphs ++ [{ inputs := newIns, nodes := ns }] },
+              w := { st2.w with graphs := st2.w.graphs ++ [{ inputs := newIns, nodes := ns, inits := newInits }] },
               newGraphs := st2.newGraphs ++ [g'] }, g')
 
 /-- `_deserialize_graph` of a subgraph, the nesting depth bounded by `fuel` -/
@@ -853,6 +1046,11 @@ inductive Op where
   | newSubgraph (n : NId)
   | newNode (g : GId) (ins : List (Option VId)) (outs : List (String × Option (List Dim)))
   | removeNode (g : GId) (n : NId) (safe : Bool)
+  | attachNode (g : GId) (n : NId)
+  | newInit (g : GId) (name : String) (shape : Option (List Dim))
+  | setShape (v : VId) (shape : Option (List Dim))
+  | setDev (n : NId) (dev : List NodeCfg)
+  | setModelCfgs (m : MId) (cfgs : List CId)
   | rename (v : VId) (s : String)
   | addCfg (m : MId) (name : String) (num : Option Int) (names : List String)
   | removeCfg (m : MId) (r : CfgRef) (cascade : Bool)
@@ -865,12 +1063,32 @@ inductive Op where
   | roundTrip (m : MId)
 deriving Repr
 
-def step (w : World) : Op → World × Res
+/-- the micro-step program of the operations that have raise points -/
+def progOf : Op → Option (List Micro)
+  | .removeNode g n safe => some (removeNodeProg g n safe)
+  | .attachNode g n => some (attachNodeProg g n)
+  | .newInit g name shape => some (newInitProg g name shape)
+  | .rename v s => some (renameProg v s)
+  | .addCfg m name num names => some (addCfgProg m name num names)
+  | .removeCfg m r cascade => some (removeCfgProg m r cascade)
+  | .shard n v c axis k devs stage => some (shardProg n v c axis k devs stage)
+  | .setStage n c stage => some (setStageProg n c stage)
+  | .replaceInput n i val => some (replaceInputProg n i val)
+  | .resizeOutputs n k => some (resizeOutputsProg n k)
+  | _ => none
+
+/-- the denotation of every operation -/
+def stepD (w : World) : Op → World × Res
   | .newModel ir => newModel w ir
   | .newInput g name shape => newInput w g name shape
   | .newSubgraph n => newSubgraph w n
   | .newNode g ins outs => newNode w g ins outs
   | .removeNode g n safe => removeNode w g n safe
+  | .attachNode g n => attachNode w g n
+  | .newInit g name shape => newInit w g name shape
+  | .setShape v shape => setShape w v shape
+  | .setDev n dev => setDev w n dev
+  | .setModelCfgs m cfgs => setModelCfgs w m cfgs
   | .rename v s => rename w v s
   | .addCfg m name num names => addCfg w m name num names
   | .removeCfg m r cascade => removeCfg w m r cascade
@@ -881,6 +1099,13 @@ def step (w : World) : Op → World × Res
   | .resizeOutputs n k => resizeOutputs w n k
   | .clone m => cloneModel w m
   | .roundTrip m => roundTrip w m
+
+/-- one operation: its micro-step program when it has raise points (clone and round trip only create
+    new objects; what they return on a raise is the untouched world), its denotation otherwise -/
+def step (w : World) (op : Op) : World × Res :=
+  match progOf op with
+  | some p => runMicro w p
+  | none => stepD w op
 
 /-- run a history from a world, collecting the outcomes -/
 def run : World → List Op → World × List Res
@@ -959,7 +1184,7 @@ instance (w : World) (n : NId) (c : CId) : Decidable (RegOn w n c) := by unfold 
 
 /-- the values a model's graphs mention -/
 def modelValues (w : World) (ms : ModelS) : List VId :=
-  (ms.graphs.map (fun g => (w.graph g).inputs)).flatten ++
+  (ms.graphs.map (fun g => (w.graph g).inputs ++ (w.graph g).inits)).flatten ++
   (ms.nodes.map (fun n => (w.node n).inputs.filterMap id ++ (w.node n).outputs)).flatten
 
 /-- distinct named values mentioned by the graph have distinct names -/
@@ -993,14 +1218,21 @@ instance (w : World) (ms : ModelS) : Decidable (Closed w ms) := by unfold Closed
     taken of a model whose node / graph lists are `Closed`; a clone never clones a
     value twice (the instrumentation flag of `cloneModelX`); a round trip is taken at IR version >= 11
     of a model whose named values have unique names.  Everything else is unrestricted — in particular every
-    *invalid* annotation request is in the alphabet. -/
+    *invalid* annotation request is in the alphabet.  A node is re-attached only to models that
+    register the configurations it (and everything nested under it) references; a shape is edited
+    only on a value that is not sharded; a directly assigned annotation tuple / configuration tuple is
+    itself well formed. -/
 def Pre (w : World) : Op → Prop
   | .newNode _ ins _ => ∀ o ∈ ins, ∀ v, o = some v → v < w.values.length
   | .replaceInput _ _ val => ∀ v, val = some v → v < w.values.length
-  | .shard n _ c _ _ devs _ =>
-      RegOn w n c ∧ c < w.cfgs.length ∧ ∀ d ∈ devs, 0 ≤ d ∧ d < (w.cfg c).numDevices
+  | .shard n _ c _ _ _ _ => RegOn w n c ∧ c < w.cfgs.length
   | .setStage n c _ => RegOn w n c ∧ c < w.cfgs.length
   | .removeCfg _ _ cascade => cascade = true
+  | .attachNode g n => ∀ ms ∈ w.models, g ∈ ms.graphs →
+      ∀ k ∈ n :: (subtreeF (w.nodes.length + 1) w n).1, k < w.nodes.length ∧ ∀ nc ∈ (w.node k).dev, nc.cfg ∈ ms.cfgs
+  | .setShape v _ => ∀ nd ∈ w.nodes, ∀ nc ∈ nd.dev, ∀ s ∈ nc.specs, s.value ≠ v
+  | .setDev n dev => NodeOK w { (w.node n) with dev := dev } ∧ ∀ nc ∈ dev, RegOn w n nc.cfg
+  | .setModelCfgs m cfgs => ModelOK w { (w.model m) with cfgs := cfgs }
   | .clone m => Closed w (w.model m) ∧ (cloneModelX w m).2 = false
   | .roundTrip m => 11 ≤ (w.model m).irVersion ∧ Closed w (w.model m) ∧ NamesUnique w (w.model m)
   | _ => True
